@@ -13,7 +13,7 @@ import (
 )
 
 func init() {
-	register("C19", "Decides, for the run methods of canary.{pause,validate,fail}Options, pause.pauseOptions and freeze.freezeOptions: (R1) exactly one API write site is reachable, of the documented verb and kind (Patch of the ExtendedDaemonSet; Status().Update of the replica set for fail), not in a loop, and no other kubectl-eds code writes to the API; (R2) the written object is DeepCopy() of the object read by Get with the user's namespace/name (for fail: of the replica set named by status.canary.replicaSet of that object, same namespace), the read object is never modified, the patch base is MergeFrom(read object), the copy is modified only by creating the annotation map and by annotation writes whose final key/value set on every path to the write is one of the command's documented tables (validate: canary-valid = status.canary.replicaSet of the object read; fail: one append to Status.Conditions of a condition whose constructor puts type Canary-Failed and status True), and the table written is the one of the command word that the cobra constructor binds to the mode field tested on that path; (R3) the write is dominated by the canary precondition (status.canary != nil, plus spec.strategy.canary != nil for pause/fail; status.canary == nil for rolling-update pause and freeze); (R4) every annotation key written is looked up by a function reachable from the controllers' Reconcile, the reader compares with a constant the writer writes (or, for canary-valid, with a name parameter), and the condition type/status written by fail are the constants the controller's failed-reader tests; (R5) reader side of validate: status.activeReplicaSet comes from one decision function, and on every path of it on which IsCanaryDeploymentValid(daemonset annotations, up-to-date replica set name) is true the up-to-date replica set is returned (no pause/fail/time condition can mask a validation); (R6) reader side of unpause: Result.IsUnpaused is stored only from IsCanaryDeploymentUnpaused applied to the parent's annotations, every store IsPaused=true reachable from the canary strategy is under the must-fact IsUnpaused=false of the same Result (an unpaused canary is not re-paused by the per-pod evaluation), IsPaused is otherwise stored only from the persisted reader, and a store IsPaused=false under IsUnpaused=true exists.", runC19)
+	register("C19", "Decides, for the run methods of canary.{pause,validate,fail}Options, pause.pauseOptions and freeze.freezeOptions: (R1) exactly one API write site is reachable, of the documented verb and kind (Patch of the ExtendedDaemonSet; Status().Update of the replica set for fail), not in a loop, and no other kubectl-eds code writes to the API; (R2) the written object is DeepCopy() of the object read by Get with the user's namespace/name (for fail: of the replica set named by status.canary.replicaSet of that object, same namespace), the read object is never modified, the patch base is MergeFrom(read object), the copy is modified only by creating the annotation map and by annotation writes whose final key/value set on every path to the write is one of the command's documented tables (validate: canary-valid = status.canary.replicaSet of the object read; fail: one append to Status.Conditions of a condition whose constructor puts type Canary-Failed and status True), and the table written is the one of the command word that the cobra constructor binds to the mode field tested on that path; (R3) the write is dominated by the canary precondition (status.canary != nil, plus spec.strategy.canary != nil for pause/fail; status.canary == nil for rolling-update pause and freeze); (R4) every annotation key written is looked up by a function reachable from the controllers' Reconcile, the reader compares with a constant the writer writes (or, for canary-valid, with a name parameter), and the condition type/status written by fail are the constants the controller's failed-reader tests; (R5) reader side of validate: status.activeReplicaSet comes from one decision function, and on every path of it on which IsCanaryDeploymentValid(daemonset annotations, up-to-date replica set name) is true the up-to-date replica set is returned (no pause/fail/time condition can mask a validation); (R6) reader side of unpause: Result.IsUnpaused is stored only from IsCanaryDeploymentUnpaused applied to the parent's annotations, every store IsPaused=true reachable from the canary strategy is under the must-fact IsUnpaused=false of the same Result (an unpaused canary is not re-paused by the per-pod evaluation), IsPaused is otherwise stored only from the persisted reader, and a store IsPaused=false under IsUnpaused=true exists; (R7) refusal table: every path of a canary command's run() that returns an error without reaching the write carries a documented refusal reason — a Get error, spec.strategy.canary == nil / status.canary == nil (as documented for the command), or an equality between the looked-up annotation of a documented key and the very value the command would write for the mode of that path (the annotation is present and already expresses the requested state); a refusal on the mere absence of the annotation (an auto-paused canary has no annotation) is reported. The rolling-update and freeze commands, whose documented behaviour refuses unpause/unfreeze on absence, are not subject to R7.", runC19)
 }
 
 type c19Cmd struct {
@@ -49,6 +49,8 @@ func runC19(r *Run) {
 	r.RuleDoc("C19.R6", "reader side of unpause: IsUnpaused is the canary-unpaused reader on the parent's annotations; IsPaused=true is stored only under IsUnpaused=false; the unpause reset exists")
 	r.Floor("C19.R5", 3)
 	r.Floor("C19.R6", 4)
+	r.RuleDoc("C19.R7", "refusal table of the canary commands: an error return before the write carries Get failure, a missing canary precondition, or the annotation present with the value that already expresses the requested state")
+	r.Floor("C19.R7", 8)
 	r.NotCovered("what the controller does in the following reconciles (C05/C07/C08 decide the reader side structurally); the 'already in that state' refusals (dropping one only makes the command rewrite the same value); how complete() fills the user's namespace/name; a pre-existing Canary-Failed condition with status False on the canary replica set (fail appends a second condition, the reader takes the first); concurrent changes between the Get and the write")
 
 	pausedK := c19Const(r, "ExtendedDaemonSetCanaryPausedAnnotationKey")
@@ -253,6 +255,15 @@ func c19Command(r *Run, c *c19Cmd, run *ssa.Function) *c19CondWrite {
 		cw = c19ConditionAppend(r, c, run, O, wcall, mods)
 	} else {
 		c19Tables(r, c, run, G, O, wcall, mods)
+	}
+	if c.statusCanary == "present" {
+		var getCalls []ssa.Value
+		for _, g := range gets {
+			if cv := callValue(g.Call); cv != nil && g.Fn == run {
+				getCalls = append(getCalls, cv)
+			}
+		}
+		c19Refusals(r, c, run, E, G, O, wcall, getCalls)
 	}
 
 	return cw
@@ -1243,4 +1254,224 @@ func c19UnpauseReader(r *Run) {
 	if nReset == 0 {
 		r.Check("C19.R6", "store IsPaused=false under IsUnpaused", "-", "-", "somewhere in the canary strategy IsUnpaused=true clears IsPaused (canary unpause returns to state Canary)", false, "no store IsPaused=false under the must-fact IsUnpaused=true")
 	}
+}
+
+// ---------------------------------------------------------------------------------------------
+// R7: refusal table of the canary commands
+
+// c19PathModes reads the mode facts (receiver field = constant) of a path; ok=false when the path
+// carries two different constants for one field (infeasible).
+func c19PathModes(p *Path, recv *ssa.Parameter) (map[c19Mode]bool, bool) {
+	modes := map[c19Mode]bool{}
+	for _, br := range pathBranches(p) {
+		cond, pol := stripNot(br.Cond, br.Pol)
+		if ld, isLd := cond.(*ssa.UnOp); isLd && ld.Op == token.MUL {
+			if root, pth := accessPath(ld); root == ssa.Value(recv) && len(pth) == 1 {
+				modes[c19Mode{pth[0], fmt.Sprint(pol)}] = true
+			}
+			continue
+		}
+		if x, y, equal, isEq := eqTruth(cond, pol); isEq {
+			for _, pr := range [][2]ssa.Value{{x, y}, {y, x}} {
+				root, pth := accessPath(pr[0])
+				if _, isLd := pr[0].(*ssa.UnOp); !isLd || root != ssa.Value(recv) || len(pth) != 1 {
+					continue
+				}
+				if s, isC := constString(pr[1]); isC && equal {
+					modes[c19Mode{pth[0], s}] = true
+				} else if b, isB := constBool(pr[1]); isB {
+					modes[c19Mode{pth[0], fmt.Sprint(b == equal)}] = true
+				}
+			}
+		}
+	}
+	perField := map[string]int{}
+	for m := range modes {
+		perField[m.field]++
+	}
+	for _, n := range perField {
+		if n > 1 {
+			return modes, false
+		}
+	}
+	return modes, true
+}
+
+func c19Refusals(r *Run, c *c19Cmd, run *ssa.Function, E, G, O ssa.Value, wcall *ssa.Call, getCalls []ssa.Value) {
+	fnName := shortFunc(run)
+	recv := run.Params[0]
+	paths, _, ok := funcPaths(run, 20000)
+	r.paths += len(paths)
+	if !ok {
+		r.Undecided("C19.R7", c.label+": refusal table", r.Prog.Pos(run.Pos()), fnName, "path cap exceeded")
+		return
+	}
+	bind, _ := c19Bindings(r, c)
+	isE := func(v ssa.Value) bool { return v == E || v == O && G == E }
+	statP := loadOfPath(isE, "Status", "Canary")
+	specP := loadOfPath(isE, "Spec", "Strategy", "Canary")
+	// annotation value of a documented key: (key, true) for the value of a look-up on the copy's or
+	// the read object's annotations
+	annValue := func(v ssa.Value) (string, bool) {
+		var lk *ssa.Lookup
+		switch x := v.(type) {
+		case *ssa.Lookup:
+			if !x.CommaOk {
+				lk = x
+			}
+		case *ssa.Extract:
+			if l, isL := x.Tuple.(*ssa.Lookup); isL && x.Index == 0 {
+				lk = l
+			}
+		}
+		if lk == nil {
+			return "", false
+		}
+		root, pth := accessPath(lk.X)
+		if (root != O && root != G) || len(pth) == 0 || pth[len(pth)-1] != "Annotations" {
+			return "", false
+		}
+		key, isC := constString(lk.Index)
+		return key, isC
+	}
+	sameValue := func(v ssa.Value, want string) bool {
+		if want == c19CanaryRS {
+			root, pth := accessPath(v)
+			return (root == G || root == O) && len(pth) == 3 && pth[0] == "Status" && pth[1] == "Canary" && pth[2] == "ReplicaSet"
+		}
+		s, isC := constString(v)
+		return isC && s == want
+	}
+	type agg struct {
+		ok     bool
+		pos    token.Pos
+		detail string
+	}
+	res := map[string]*agg{}
+	var order []string
+	for _, p := range paths {
+		ret := returnOf(p.Blocks[len(p.Blocks)-1])
+		if ret == nil || len(ret.Results) == 0 || isNilConst(unwrap(p.Resolve(ret.Results[len(ret.Results)-1]))) || p.Contains(wcall.Block()) {
+			continue
+		}
+		modes, feasible := c19PathModes(p, recv)
+		if !feasible {
+			continue
+		}
+		// the table of the requested state on this path
+		var want map[string]string
+		word := ""
+		if len(c.tables) == 1 {
+			for w, t := range c.tables {
+				word, want = w, t
+			}
+		} else {
+			for w, t := range c.tables {
+				if b, has := bind[w]; has && modes[b] {
+					word, want = w, t
+				}
+			}
+		}
+		var reasons, atoms []string
+		for _, br := range pathBranches(p) {
+			x, y, equal, isEq := eqTruth(br.Cond, br.Pol)
+			if !isEq {
+				continue
+			}
+			if isNilConst(x) || isNilConst(y) {
+				v := x
+				if isNilConst(x) {
+					v = y
+				}
+				for _, g := range getCalls {
+					if v == g {
+						if !equal {
+							reasons = append(reasons, "Get failed")
+						} else {
+							atoms = append(atoms, "get=ok")
+						}
+					}
+				}
+				switch {
+				case statP(v):
+					if equal {
+						reasons = append(reasons, "status.canary == nil")
+					} else {
+						atoms = append(atoms, "status.canary=set")
+					}
+				case specP(v):
+					if equal && c.specCanary {
+						reasons = append(reasons, "spec.strategy.canary == nil")
+					} else {
+						atoms = append(atoms, fmt.Sprintf("spec.canary==nil:%v", equal))
+					}
+				default:
+					if root, pth := accessPath(v); (root == O || root == G) && len(pth) > 0 && pth[len(pth)-1] == "Annotations" {
+						atoms = append(atoms, fmt.Sprintf("annotations==nil:%v", equal))
+					}
+				}
+				continue
+			}
+			for _, pr := range [][2]ssa.Value{{x, y}, {y, x}} {
+				key, isAnn := annValue(pr[0])
+				if !isAnn {
+					continue
+				}
+				short := key[strings.LastIndex(key, "/")+1:]
+				val := "<name>"
+				if s, isC := constString(pr[1]); isC {
+					val = s
+				}
+				if equal && want != nil && want[key] != "" && sameValue(pr[1], want[key]) {
+					reasons = append(reasons, fmt.Sprintf("annotation %s already %s", short, val))
+				} else {
+					atoms = append(atoms, fmt.Sprintf("%s==%s:%v", short, val, equal))
+				}
+			}
+		}
+		// presence flags
+		for _, br := range pathBranches(p) {
+			cond, pol := stripNot(br.Cond, br.Pol)
+			if ex, isEx := cond.(*ssa.Extract); isEx && ex.Index == 1 {
+				if lk, isL := ex.Tuple.(*ssa.Lookup); isL {
+					if key, isC := constString(lk.Index); isC {
+						atoms = append(atoms, fmt.Sprintf("%s present:%v", key[strings.LastIndex(key, "/")+1:], pol))
+					}
+				}
+			}
+		}
+		sort.Strings(reasons)
+		sort.Strings(atoms)
+		reasons = c19Uniq(reasons)
+		atoms = c19Uniq(atoms)
+		construct := c.label + ": refusal [" + strings.Join(reasons, "; ") + "]"
+		if len(reasons) == 0 {
+			construct = c.label + ": refusal without a documented reason [" + word + " " + strings.Join(atoms, " ") + "]"
+		}
+		a := res[construct]
+		if a == nil {
+			a = &agg{ok: len(reasons) > 0, pos: instrPos(ret)}
+			if !a.ok {
+				a.detail = "the command returns an error here although the object was read, the canary precondition holds and no documented annotation already has the requested value; facts: " + strings.Join(atoms, " ")
+			}
+			res[construct] = a
+			order = append(order, construct)
+		}
+	}
+	sort.Strings(order)
+	for _, cst := range order {
+		a := res[cst]
+		r.Check("C19.R7", cst, r.Prog.Pos(a.pos), fnName,
+			"an error return before the write has a documented reason: Get failed, the canary precondition is missing, or the annotation is present with the value that already expresses the requested state (never the mere absence of the annotation)", a.ok, a.detail)
+	}
+}
+
+func c19Uniq(in []string) []string {
+	var out []string
+	for i, x := range in {
+		if i == 0 || x != in[i-1] {
+			out = append(out, x)
+		}
+	}
+	return out
 }
